@@ -406,6 +406,12 @@ def run_case(exe, spec, chunks, cols=80, rows=24, raw_initial=False, probe=None,
                 statuses.append(s.tell_printer(ev[1], ev[2], wait=True))
             elif ev[0] == "print_nowait":
                 statuses.append(s.tell_printer(ev[1], ev[2], wait=False))
+            elif ev[0] == "winch_blocked":
+                # a resize while NOTHING is read from the terminal: the child is (or soon will be) blocked writing a message
+                # larger than the pty takes, and the signal interrupts that write
+                time.sleep(0.25)
+                fcntl.ioctl(s.master, termios.TIOCSWINSZ, struct.pack("HHHH", rows, ev[1], 0, 0))
+                time.sleep(0.25)
             elif ev[0] == "wait_acks":
                 # a burst was handed over: wait until every print call has returned, then for quiescence
                 t0 = time.time()
